@@ -26,7 +26,7 @@ TYPES = {'int': int, 'str': str, 'bool': bool, 'object': object, 'list': list, '
          'OrderedDict': OrderedDict}
 CMP = {'==': operator.eq, '!=': operator.ne, '<': operator.lt, '>': operator.gt,
        '<=': operator.le, '>=': operator.ge}
-MAPCLS = ('dict', 'odict')
+MAPCLS = ('dict', 'odict', 'fdict')
 
 
 def check_tables():
@@ -57,6 +57,66 @@ def check_tables():
                 raise vlib.MachineryError('GlomMatch.tla RegexTab %s/%s is not %s' % (name, fn, lit))
 
 
+# ---- hardening classes: falsy / subclassed containers, hostile equality --------------------------
+FalsyList = codec._falsy(list)        # instances are falsy whatever they hold
+FalsyDict = codec._falsy(dict)
+
+
+class NTuple(tuple):
+    """a tuple subclass whose constructor takes the items as separate arguments (like a namedtuple)"""
+    __slots__ = ()
+
+    def __new__(cls, *items):
+        return tuple.__new__(cls, items)
+
+    def __getnewargs__(self):          # (copy / pickle, as namedtuples do)
+        return tuple(self)
+
+    def __repr__(self):
+        return 'NTuple%s' % (tuple.__repr__(self),)
+
+
+class AnyEq:
+    """== to everything, != to nothing"""
+    def __eq__(self, other):
+        return True
+
+    def __ne__(self, other):
+        return False
+
+    def __hash__(self):
+        return 1
+
+    def __repr__(self):
+        return 'AnyEq()'
+
+
+class Grumpy:
+    """comparing it with anything but another Grumpy raises TypeError"""
+    def __eq__(self, other):
+        if type(other) is not Grumpy:
+            raise TypeError('Grumpy compared with a foreign operand')
+        return True
+
+    def __ne__(self, other):
+        return not self.__eq__(other)
+
+    __hash__ = None
+
+    def __repr__(self):
+        return 'Grumpy()'
+
+
+def odict_shuffled(pairs):
+    """an OrderedDict whose own order is `pairs` while the raw dict order underneath is the reverse"""
+    d = OrderedDict()
+    for k, v in reversed(pairs):
+        d[k] = v
+    for k, _ in pairs:
+        d.move_to_end(k)
+    return d
+
+
 # ---- trees <-> Python ------------------------------------------------------------------
 def scalar_py(v):
     k = v['k']
@@ -68,6 +128,10 @@ def scalar_py(v):
         return None
     if k == 'bool':
         return v['b']
+    if k == 'any':
+        return AnyEq()
+    if k == 'grumpy':
+        return Grumpy()
     raise ValueError('not a scalar: %r' % (v,))
 
 
@@ -77,12 +141,17 @@ def tree_py(v):
         return scalar_py(v)
     cls, items = v['cls'], v['items']
     if cls in MAPCLS:
-        d = OrderedDict() if cls == 'odict' else {}
-        for e in items:
-            d[tree_py(e['key'])] = tree_py(e['val'])
+        pairs = [(tree_py(e['key']), tree_py(e['val'])) for e in items]
+        if cls == 'odict':
+            return odict_shuffled(pairs)
+        d = FalsyDict() if cls == 'fdict' else {}
+        for k, x in pairs:
+            d[k] = x
         return d
     seq = [tree_py(x) for x in items]
-    return {'list': list, 'tuple': tuple, 'set': set, 'frozenset': frozenset}[cls](seq)
+    if cls == 'ntuple':
+        return NTuple(*seq)
+    return {'list': list, 'tuple': tuple, 'set': set, 'frozenset': frozenset, 'flist': FalsyList}[cls](seq)
 
 
 def arg_py(v):
@@ -156,11 +225,16 @@ def py_tree(o):
         return {'k': 'int', 'i': o}
     if isinstance(o, str):
         return {'k': 'str', 's': o}
+    if isinstance(o, AnyEq):
+        return {'k': 'any'}
+    if isinstance(o, Grumpy):
+        return {'k': 'grumpy'}
     if isinstance(o, OrderedDict):
         return {'k': 'c', 'cls': 'odict', 'items': [{'key': py_tree(k), 'val': py_tree(v)} for k, v in o.items()]}
     if isinstance(o, dict):
-        return {'k': 'c', 'cls': 'dict', 'items': [{'key': py_tree(k), 'val': py_tree(v)} for k, v in o.items()]}
-    for name, t in (('list', list), ('tuple', tuple)):
+        return {'k': 'c', 'cls': 'fdict' if isinstance(o, FalsyDict) else 'dict',
+                'items': [{'key': py_tree(k), 'val': py_tree(v)} for k, v in o.items()]}
+    for name, t in (('flist', FalsyList), ('ntuple', NTuple), ('list', list), ('tuple', tuple)):
         if isinstance(o, t):
             return {'k': 'c', 'cls': name, 'items': [py_tree(x) for x in o]}
     for name, t in (('frozenset', frozenset), ('set', set)):
@@ -483,8 +557,7 @@ def plain_default(d):
     if d['k'] != 'c':
         return d
     d = dict(d)
-    if d['cls'] == 'odict':
-        d['cls'] = 'dict'
+    d['cls'] = {'odict': 'dict', 'fdict': 'dict', 'flist': 'list', 'ntuple': 'tuple'}.get(d['cls'], d['cls'])
     d['items'] = [{'key': plain_default(e['key']), 'val': plain_default(e['val'])} if d['cls'] in MAPCLS else plain_default(e)
                   for e in d['items']]
     return d
